@@ -44,6 +44,10 @@ class TimeoutDict(Generic[K, V]):
         self._items[key] = value
         self._accessed(key)
 
+    def discard(self, key):
+        """Remove the item if it is there"""
+        self._items.pop(key, None)
+
     def _start_over(self):
         """Clear _recently_accessed, set the timeout"""
         self._timeout = asyncio.get_running_loop().call_later(self.timeout, self._tick)
